@@ -15,5 +15,5 @@ Theorem lattice_rows_match_model : forallb (forallb (prow_ok g_limtab)) g_rows =
 Proof. vm_compute. reflexivity. Qed.
 
 Theorem primitives_match_model :
-  forallb (forallb pthr_ok) g_thr && forallb plock_ok g_locks = true.
+  forallb (forallb pthr_ok) g_thr && forallb plock_ok g_locks && forallb (forallb pfi_ok) g_fi = true.
 Proof. vm_compute. reflexivity. Qed.
